@@ -545,37 +545,118 @@ func (s *Sess) resolveLocalAt(at ssa.Instruction, name string, st *State) (Val, 
 			}
 		}
 	}
-	var best *ssa.DebugRef
-	for _, d := range s.debugRefs[name] {
-		if d.IsAddr {
-			continue
+	// The value of a source variable just before `at`: among the SSA values the variable takes
+	// (definitions and uses carry a DebugRef), the latest one whose definition dominates `at`,
+	// provided no other value of the variable can reach `at` behind its back (a branch-local
+	// assignment whose merging phi is never named). An ambiguous name does not resolve, and the
+	// clause that mentions it is reported as detached rather than evaluated on a stale value.
+	refs := s.debugRefs[name]
+	if at.Pos().IsValid() {
+		// shadowing: keep the declaration the name denotes at the site (Go scoping rules)
+		var obj types.Object
+		if s.fn.Pkg != nil && s.fn.Pkg.Pkg != nil {
+			if inner := s.fn.Pkg.Pkg.Scope().Innermost(at.Pos()); inner != nil {
+				_, obj = inner.LookupParent(name, at.Pos())
+			}
 		}
-		ok := false
-		if d.Block() == at.Block() {
-			for _, in := range at.Block().Instrs {
-				if in == ssa.Instruction(d) {
-					ok = true
-					break
-				}
-				if in == at {
-					break
+		if obj != nil {
+			found := false
+			for _, d := range refs {
+				if d.Object() == obj {
+					found = true
 				}
 			}
-		} else if d.Block().Dominates(at.Block()) {
-			ok = true
+			if !found {
+				obj = nil
+			}
 		}
-		if !ok {
-			continue
-		}
-		if best == nil || best.Block().Dominates(d.Block()) {
-			best = d
+		if obj != nil {
+			var keep []*ssa.DebugRef
+			for _, d := range refs {
+				if d.Object() == obj {
+					keep = append(keep, d)
+				}
+			}
+			refs = keep
 		}
 	}
-	if best != nil {
-		v := s.val(best.X)
-		if v.place == nil {
-			return v, true
+	type defPt struct {
+		b   *ssa.BasicBlock
+		idx int
+	}
+	entry := s.fn.Blocks[0]
+	pointOf := func(v ssa.Value) defPt {
+		if in, ok := v.(ssa.Instruction); ok && in.Block() != nil {
+			for i, x := range in.Block().Instrs {
+				if x == in {
+					return defPt{in.Block(), i}
+				}
+			}
 		}
+		return defPt{entry, -1}
+	}
+	atPt := defPt{at.Block(), 0}
+	for i, x := range at.Block().Instrs {
+		if x == at {
+			atPt.idx = i
+		}
+	}
+	before := func(a, b defPt) bool { // a's definition dominates point b
+		if a.b == b.b {
+			return a.idx < b.idx
+		}
+		return a.b.Dominates(b.b)
+	}
+	var vals []ssa.Value
+	seenV := map[ssa.Value]bool{}
+	for _, d := range refs {
+		if d.IsAddr || seenV[d.X] {
+			continue
+		}
+		seenV[d.X] = true
+		vals = append(vals, d.X)
+	}
+	var cur ssa.Value
+	var curPt defPt
+	for _, v := range vals {
+		p := pointOf(v)
+		if !before(p, atPt) {
+			continue
+		}
+		if cur == nil || before(curPt, p) {
+			cur, curPt = v, p
+		}
+	}
+	if cur == nil {
+		return Val{}, false
+	}
+	for _, w := range vals {
+		if w == cur {
+			continue
+		}
+		p := pointOf(w)
+		if before(p, atPt) || !before(curPt, p) {
+			continue // an earlier value, or one on a path that passes the current definition again
+		}
+		// w is assigned after cur: can it reach `at` without passing cur's block again?
+		seen := map[*ssa.BasicBlock]bool{curPt.b: true}
+		stack := append([]*ssa.BasicBlock{}, p.b.Succs...)
+		for len(stack) > 0 {
+			b := stack[len(stack)-1]
+			stack = stack[:len(stack)-1]
+			if seen[b] {
+				continue
+			}
+			seen[b] = true
+			if b == atPt.b {
+				return Val{}, false // ambiguous
+			}
+			stack = append(stack, b.Succs...)
+		}
+	}
+	v := s.val(cur)
+	if v.place == nil {
+		return v, true
 	}
 	return Val{}, false
 }
